@@ -200,11 +200,28 @@ pub fn damage_bucket_bytes(cur: &[u8], dmg: &BDamage) -> Vec<u8> {
             }
         }
         BDamage::AppendRaw(g) => b.extend_from_slice(g),
+        BDamage::AppendLineFrom(off) => {
+            if !b.is_empty() {
+                let off = off % b.len();
+                let end = b[off..].iter().position(|&c| c == b'\n').map(|p| off + p).unwrap_or(b.len());
+                let frag = b[off..end].to_vec();
+                b.push(b'\n');
+                b.extend_from_slice(&frag);
+            }
+        }
+        BDamage::BecomeDir => {}
     }
     b
 }
 
 pub fn damage_bucket(p: &Path, dmg: &BDamage) {
+    if let BDamage::BecomeDir = dmg {
+        if std::fs::symlink_metadata(p).map(|m| m.is_file()).unwrap_or(false) {
+            let _ = std::fs::remove_file(p);
+            let _ = std::fs::create_dir(p);
+        }
+        return;
+    }
     let cur = match std::fs::read(p) {
         Ok(b) => b,
         Err(_) => return,
